@@ -8,11 +8,13 @@ META = {
     "technique": "Coq proof over an interleaving model of project.loadModule / module.wait / module.done "
                  "(one step per critical section) + replay of verifhook logs of real Load runs by the model",
     "level_text": "Theorems (Coq, all load graphs, all numbers of packages, all schedules): every module file is executed "
-                  "at most once; no reachable non-final state is stuck (deadlock freedom) and every run is finite; with an "
-                  "acyclic load graph no error is ever produced, every final state has every registered module loaded "
-                  "without error and the registered set is exactly the set reachable from the packages (schedule "
-                  "independent); with a cycle reachable from a package every final state carries a (cyclic-dependency) "
-                  "error, so Load fails. The model is tied to module.go/project.go by running Load on generated projects "
+                  "at most once; no reachable non-final state is stuck (deadlock freedom: every cycle of loading edges "
+                  "contains a walker that finds itself) and every run is finite with an explicit step bound (a measure "
+                  "that every step decreases; the seen set bounds each walk); with an acyclic load graph no error is ever "
+                  "produced, every final state has every registered module loaded without error and the registered set is "
+                  "exactly the set reachable from the packages (schedule independent); with a cycle reachable from a "
+                  "package every final state carries a (cyclic-dependency) error, so Load fails. "
+                  "The model is tied to module.go/project.go by running Load on generated projects "
                   "(chains, diamonds, shared helpers, 2/3/4-cycles, self-loads, random graphs) under seeded jitter and "
                   "having the model replay every hook log event by event, plus direct oracles on the implementation.",
     "level_note": "Trusted: Coq kernel; atomicity of the Go critical sections (each takes exactly one mutex and does not "
@@ -220,8 +222,8 @@ def run(ctx):
     proof_broken = not ok
 
     out = os.path.join(ctx.tmp, "c06.jsonl")
-    nrand = 60 if ctx.quick() else 600
-    reps = 4 if ctx.quick() else 8
+    nrand = 200 if ctx.quick() else 1500
+    reps = 6 if ctx.quick() else 8
     env = {"VERIF_OUT": out, "VERIF_SEED": str(ctx.seed), "VERIF_NRAND": str(nrand), "VERIF_REPS": str(reps),
            "VERIF_WATCHDOG_MS": "8000"}
     rc, o = ctx.go_overlay_test("", {"zz_verif_c06_load_test.go": os.path.join(HARNESS, "overlay/root/zz_verif_c06_load_test.go")},
